@@ -99,7 +99,9 @@ def cases_(draw):
     # prebuilt: every Flow object of the history is constructed up front (before any run / delete happens)
     return {'pkg': pkg, 'n_cp': n_cp, 'ops': ops, 'prebuilt': draw(st.integers(0, 3)) == 0,
             # checkpoint names: plain, or paths that share their last component (daily/load, weekly/load, ...)
-            'names': draw(st.sampled_from(['plain', 'plain', 'shared-last-component']))}
+            'names': draw(st.sampled_from(['plain', 'plain', 'shared-last-component'])),
+            # a structural step behind the last checkpoint: it drops / merges resources of the checkpointed stream
+            'tail': draw(st.sampled_from([None, None, 'delete_first', 'delete_last', 'concatenate_all'])) if n_res >= 2 else None}
 
 
 def cases(tier):
@@ -193,6 +195,18 @@ def check(case, ctx):
         for j in range(1, n_cp + 1):
             steps.append(dataflows.checkpoint(cp_name(j), checkpoint_path=cp_root))
             steps.append(counted(j + 1))
+        tail = case.get('tail')
+        if tail == 'delete_first':
+            steps.append(dataflows.delete_resource('res1'))
+        elif tail == 'delete_last':
+            steps.append(dataflows.delete_resource('res%d' % len(pkg)))
+        elif tail == 'concatenate_all':
+            names_ = []
+            for r_ in pkg:
+                for f_ in r_['fields']:
+                    if f_['name'] not in names_:
+                        names_.append(f_['name'])
+            steps.append(dataflows.concatenate({n_: [] for n_ in names_}, {'name': 'merged', 'path': 'merged.csv'}))
         return steps
 
     prebuilt = []
@@ -278,6 +292,8 @@ def check(case, ctx):
                     rows, dp, _ = Flow(*steps).results(on_error=None)
         except Exception as e:
             rc = root_cause(e)
+            if isinstance(rc, AssertionError) and 'empty row' in str(rc):
+                return Info(rejected=True, classes=['rejected:concatenate: empty row (documented assertion)'])
             if first is not None and existing:
                 raise Violation('resume-raises:%s' % type(rc).__name__, {'error': str(rc)[:300], 'existing': sorted(existing)})
             raise unexpected(e, 'run')
@@ -306,6 +322,20 @@ def check(case, ctx):
                                 v.append(j)
                             elif isinstance(v, dict):
                                 v['_%d' % j] = True
+            tail = case.get('tail')
+            if tail == 'delete_first':
+                exp_tables = exp_tables[1:]
+            elif tail == 'delete_last':
+                exp_tables = exp_tables[:-1]
+            elif tail == 'concatenate_all':
+                names_ = []
+                for r_ in pkg:
+                    for f_ in r_['fields']:
+                        if f_['name'] not in names_:
+                            names_.append(f_['name'])
+                exp_tables = [[dict({n_: None for n_ in names_}, **r) for t in exp_tables for r in t]]
+            if len(rows) != len(exp_tables):
+                raise Violation('first-run-resources', {'got': len(rows), 'expected': len(exp_tables)})
             for got, exp in zip(rows, exp_tables):
                 if len(got) != len(exp) or not all(strict_eq(g, e) for g, e in zip(got, exp)):
                     raise Violation('first-run-rows', {'got': got[:2], 'expected': exp[:2]})
